@@ -7,7 +7,7 @@ apply to every result the driver ever printed); `areaches_aadvance`: every run o
 fuel (so with `C14Term.adaptive_terminates` the executable model returns for some fuel, whatever the error oracle).
 Times form an arbitrary linear order; `add`, `half`, `err`, `update` are arbitrary functions.
 -/
-import Tsv.Proofs.C14
+import Tsv.Proofs.C14Term
 
 namespace C14Exec
 open Model.Loop LoopCore C14
@@ -69,5 +69,24 @@ theorem aadvance_exit {fuel : Nat} {out : T} {a a' : ASt T Y X} {log tr log' tr'
         simp only [Option.some.injEq, Prod.mk.injEq] at h
         obtain ⟨rfl, _, _⟩ := h
         exact hnl
+
+/-! ### the executable adaptive loop returns -/
+section defined
+variable {K : Type} [Field K] [LinearOrder K] [IsStrictOrderedRing K] [Archimedean K]
+variable {tEnd : K} {step : K → K → Y → X → Y × X}
+variable {half : K → K → K} {err : Y → Y → K} {update : K → K → Option K → Ctl K} {dtMin one c : K}
+
+/-- For every error oracle, a contracting controller and `dt_min > 0`, the fuelled adaptive loop that the correspondence driver runs
+returns a result for some fuel (and that result satisfies every `AReaches` theorem by `aadvance_reaches`): running out of fuel is
+a matter of the driver's constant, never of the loop. -/
+theorem aadvance_defined (hpos : 0 < dtMin) (hc0 : 0 ≤ c) (hc1 : c < 1)
+    (hc : ∀ e h p, one < e → (update e h p).h ≤ c * h) (out : K) (hout : out ≤ tEnd) (a : ASt K Y X) (ha : dtMin ≤ a.h) :
+    ∃ fuel a', ∀ log tr, ∃ log' tr',
+      aadvance tEnd step (fun x y : K => x + y) half err update dtMin one fuel out a log tr = some (a', log', tr') := by
+  obtain ⟨a', acc, hr⟩ := C14Term.adaptive_terminates (step := step) (half := half) (err := err) hpos hc0 hc1 hc out hout a ha
+  obtain ⟨fuel, hf⟩ := areaches_aadvance hr
+  exact ⟨fuel, a', hf⟩
+
+end defined
 
 end C14Exec
